@@ -132,7 +132,6 @@ Variable t : nat.
 Variables n m p : Z.
 Variable ob : operand.
 Variable B : Z -> Z.
-Hypothesis Hn : 0 < n.
 Hypothesis Hm : 0 < m.
 Hypothesis Hp : 0 < p.
 
